@@ -281,7 +281,7 @@ func (c *Client) WaitOrder(ctx context.Context, url string) (*Order, error) {
 		}
 
 		d := retryAfter(res.Header.Get("Retry-After"))
-		if d == 0 {
+		if d <= 0 {
 			// Default retry-after.
 			// Same reasoning as in WaitAuthorization.
 			d = time.Second
